@@ -197,7 +197,7 @@ def run(ctx):
     # size classes: many parts on a mesh that is not tiny (the owned node ids of a part then spread over a range much larger than
     # the part), and a third-order type (its boundary group SEG4 is listed after the bulk type); judged by Trace_Partition.tla
     # like the others, without the per-part assembly
-    large = [("TRI10", 1.0, 8), ("TRI10", 0.7, 7)] + ([("TRI3", 0.3, 48), ("QUAD4", 0.3, 32)] if ctx.thorough else [])
+    large = [("TRI10", 1.0, 8), ("TRI10", 0.7, 7)]
     for et, h, N in large:
         ident = f"{et}/N{N}/h{h}/large"
         recs.append(record(make_parts(N, et, 2, h), ident))
